@@ -20,6 +20,7 @@ def C01(prog: Program, run: Run, tier: str) -> None:
         crsguard.rule_retag(prog, {"geom", "geobox", "gcp", "overlap", "gridspec"}),
         "R-RETAG constructed Geometry/BoundingBox/GeoBox results carry a CRS originating from an operand",
     )
+    run.add([i for i in valueobj.rule_cache(prog) if "KEYCRS" in i.construct or "KEYCOMPLETE" in i.construct], "R-CACHE memoised functions over CRS-tagged operands key on their CRS")
     run.floor("R-CRSGUARD|", 40)
     run.floor("R-WRAPNAME|", 16)
     run.floor("R-RETAG|", 40)
@@ -206,6 +207,7 @@ def C11(prog: Program, run: Run, tier: str) -> None:
     run.add(guards.identity_shortcircuit(prog), "R-GUARDSEQ `return gbox` only under all five conditions; output box from the buffered footprint in the requested CRS")
     run.add(_only(_fwd(prog, {"overlap", "geobox"}), "overlap:compute_output_geobox", "geobox:GeoBox.to_crs", "geobox:GeoBoxBase.footprint"), FWD_DESC)
     run.add(_only(axis.rule_axis(prog, {"overlap", "crs", "geobox"}), "overlap:compute_output_geobox", "overlap:get_scale", "crs:", "geobox:GeoBox.from_bbox", "geobox:GeoBoxBase.footprint"), AXIS_DESC)
+    run.add([i for i in valueobj.rule_cache(prog) if "KEYCANON" not in i.construct], "R-CACHE the transformer cache key is complete (from, to, always_xy) and its id() keys are pinned")
     run.floor("R-GUARDSEQ|", 6)
 
 
